@@ -41,8 +41,18 @@ def table_index_sites(ctx, body):
 def check_table_index(ctx, body, what):
     """T8-c: index into the token table is the unshifted id and is bounded by the unshifted table length"""
     sites = table_index_sites(ctx, body)
-    if not sites:
+    # `self.state.1.get(id)` is the same lookup with the bound built in (None past the end)
+    gets = []
+    for t in body.calls(r'slice::.*::get$|<\[.*\]>::get$|Vec::get$|::get$'):
+        a = args_of(body, t)
+        if len(a) == 2 and is_state(peel(core(a[0])), 1):
+            gets.append((t, a[1]))
+    if not sites and not gets:
         raise AnchorMissing('%s does not index the token table self.state.1' % what)
+    for t, x in gets:
+        arith = [s for s in walk(core(x)) if isinstance(s, tuple) and s and s[0] == 'bin']
+        ctx.require(not arith, body, 'table-index-shifted', '%s: token table is looked up with the unshifted id %s' % (what, show_in(body, x)),
+                    '%s: token table state.1 (which already contains the 256 byte tokens) is looked up with %s -- id spaces disagree' % (what, show_in(body, x)), t.span)
     for t, x in sites:
         cx = core(x)
         arith = [s for s in walk(cx) if isinstance(s, tuple) and s and s[0] == 'bin']
